@@ -14,7 +14,7 @@ func init() {
 	register(&core.Rule{ID: "CRDT-STABLE", Props: []string{"C13"}, Floor: 4,
 		Doc: "every CRDT state sent to a peer (ReceiveValue argument or reply) is the result of getStableValue(), which returns the pre-section snapshot while a section is writing",
 		Run: runCRDTStable})
-	register(&core.Rule{ID: "CRDT-SNAPSHOT", Props: []string{"C13"}, Floor: 1,
+	register(&core.Rule{ID: "CRDT-SNAPSHOT", Props: []string{"C13", "C01"}, Floor: 1,
 		Doc: "code outside the section operations that updates the CRDT value (the merger) also updates the snapshot when one exists, so an Abort cannot discard merged peer state",
 		Run: runCRDTSnapshot})
 	register(&core.Rule{ID: "CRDT-ARM", Props: []string{"C13"}, Floor: 1,
@@ -190,6 +190,34 @@ func runCRDTSnapshot(c *core.Ctx) {
 							ok = true
 						}
 					}
+				}
+				// ... and what is folded into the snapshot is the received state alone, nothing derived from the working value
+				for _, sAtom := range g.FindAtoms(func(x ast.Node) bool { _, ok := fieldIsAssigned(info, x, a.oldValue); return ok }) {
+					rhs, _ := fieldIsAssigned(info, sAtom, a.oldValue)
+					tainted := false
+					var scan func(x ast.Node, depth int)
+					scan = func(x ast.Node, depth int) {
+						ast.Inspect(x, func(m ast.Node) bool {
+							switch y := m.(type) {
+							case *ast.SelectorExpr:
+								if an.SelectedField(info, y) == a.value {
+									tainted = true
+								}
+							case *ast.Ident:
+								if depth < 3 {
+									if d := an.SingleDef(info, b.body, info.ObjectOf(y)); d != nil {
+										scan(d, depth+1)
+									}
+								}
+							}
+							return true
+						})
+					}
+					if rhs != nil {
+						scan(rhs, 0)
+					}
+					c.Check(!tainted, fmt.Sprintf("crdt.%s:snapshot-takes-received-state-only#%d", fn.Obj.Name(), n), sAtom.Pos(), "the snapshot is merged with the received state, not with the working value",
+						"what is merged into the snapshot is derived from res.value, the working copy that contains the writes of the section in flight: if that section aborts, Abort restores a snapshot that already contains its writes, and broadcasts of the 'stable' state leak them to peers")
 				}
 				c.Check(ok, key, w.Pos(), "the snapshot is updated alongside the value while a section is writing",
 					"state received from a peer is merged into value only: if it arrives while a local section is writing and that section aborts, Abort restores the old snapshot and the merged peer state is lost for good")
